@@ -14,7 +14,9 @@ import subprocess
 import sys
 from pathlib import Path
 
-REPO = Path("/repo")
+import os
+
+REPO = Path(os.environ.get("VERIF_REPO", "/repo"))  # run with VERIF_REPO=<scratch worktree> to leave /repo alone
 SRC = "src/frequenz/sdk/"
 ALG = SRC + "microgrid/_power_distributing/_distribution_algorithm/_battery_distribution_algorithm.py"
 BM = SRC + "microgrid/_power_distributing/_component_managers/_battery_manager.py"
@@ -209,7 +211,7 @@ def main() -> int:
         try:
             path.write_text(src.replace(old, new))
             imp = subprocess.run(["/venv/bin/python", "-c", "import frequenz.sdk.microgrid, frequenz.sdk.timeseries, frequenz.sdk.actor"],
-                                 capture_output=True, text=True)
+                                 capture_output=True, text=True, env=dict(os.environ, PYTHONPATH=str(REPO / "src")))
             if imp.returncode != 0:
                 results.append({"mutation": name, "status": "does not import", "err": imp.stderr[-300:]})
                 print(f"{name}: does not import")
